@@ -335,6 +335,7 @@ type H struct {
 	kept   []*kept
 	exists map[string]bool
 	slowRunning, slowGo chan struct{}
+	prelude bool // first serve cycle of a restart case
 	conn   *fakeConn // the connection object of the current serve cycle
 	stale  []string  // "(cb,act)" of publishes that went to another connection object
 	staleS []string  // their subjects (for the report)
@@ -455,6 +456,11 @@ func (h *H) listener(lid int) func(*res.Event) {
 		seen := evTermOf(ev)
 		g := goid()
 		h.mu.Lock()
+		if h.prelude {
+			// first serve cycle of a restart case: listeners are inert
+			h.mu.Unlock()
+			return
+		}
 		h.log = append(h.log, logEnt{h.curCb, h.curAct, h.curD, g == h.curGid, "EListen " + strconv.Itoa(lid) + " " + seen})
 		h.kept = append(h.kept, &kept{ev: ev, seen: seen, cb: h.curCb, sameAtCb: true})
 		react := h.d.Setup.React
@@ -811,6 +817,7 @@ func runCase(d caseD) (term string, mutated bool, stale []string, hang error) {
 	if d.Restart != "" {
 		// ---- first serve cycle on connection object A ----
 		connA := conn
+		h.prelude = true
 		h.slowRunning, h.slowGo = make(chan struct{}), make(chan struct{})
 		closed := make(chan struct{})
 		var once sync.Once
@@ -820,7 +827,11 @@ func runCase(d caseD) (term string, mutated bool, stale []string, hang error) {
 		}
 		rid0 := layoutOf(d.Setup.Mode).rids[0]
 		pre := make(chan struct{})
-		if err := s.With(rid0, func(r res.Resource) { r.Event("early", nil); close(pre) }); err != nil {
+		if err := s.With(rid0, func(r res.Resource) {
+			defer close(pre)
+			defer func() { recover() }()
+			r.Event("early", nil)
+		}); err != nil {
 			return "", false, nil, err
 		}
 		if err := wait(pre, "first cycle callback"); err != nil {
@@ -830,7 +841,10 @@ func runCase(d caseD) (term string, mutated bool, stale []string, hang error) {
 		switch d.Restart {
 		case "inflight-with", "inflight-call":
 			if d.Restart == "inflight-with" {
-				if err := s.With(rid0, func(r res.Resource) { h.slow(r, nil) }); err != nil {
+				if err := s.With(rid0, func(r res.Resource) {
+					defer func() { recover() }()
+					h.slow(r, nil)
+				}); err != nil {
 					return "", false, nil, err
 				}
 			} else {
@@ -859,6 +873,9 @@ func runCase(d caseD) (term string, mutated bool, stale []string, hang error) {
 		}
 		// ---- second cycle: the same service on a NEW connection object B ----
 		conn = &fakeConn{h: h, id: 2}
+		h.mu.Lock()
+		h.prelude = false
+		h.mu.Unlock()
 	}
 	if err := serve(conn); err != nil {
 		return "", false, nil, err
@@ -1365,7 +1382,11 @@ func main() {
 					aps = []string{""}
 				}
 				for _, ap := range aps {
-					for _, nl := range []int{0, 1, 3} {
+					nls := []int{0, 1, 3}
+					if strings.HasPrefix(ap, "fail") && ap != "fail-res" && ap != "fail-plain" {
+						nls = []int{3} // the error VALUE is varied with listeners registered
+					}
+					for _, nl := range nls {
 						for _, ctx := range []string{"call", "with"} {
 							mode := []string{"direct", "pattern", "mount", "wild", "mountpat", "root"}[(nl+len(cases))%6]
 							sd := setupD{Mode: mode, Type: ty, Apply: allApply(ap != "absent"), Steps: g.steps(mode, nl)}
